@@ -99,3 +99,17 @@ Proof.
   fold (scale2D t v). rewrite IH. rewrite <- (bm_value_entry2 SS AA (bm_map _ _)).
   rewrite bm_map_value by assumption. rewrite <- bm_value_entry2. lra.
 Qed.
+
+(* CooperativeModel::sampleSRs: the reward vector holds, per basis, the entry selected by (s, a) — the
+   action restricted to the basis' action tag in the ACTION space — and sums to the flat reward *)
+Theorem sampleSRs_rewards_lemma : forall SS AA rewards s a,
+  sampleSRs_rewards SS AA rewards s a = map (fun b => entry2 SS AA b s a) rewards /\
+  qsum (sampleSRs_rewards SS AA rewards s a) == flat2 SS AA rewards s a /\
+  expectedReward SS AA rewards s a == flat2 SS AA rewards s a.
+Proof.
+  intros SS AA rewards s a. unfold sampleSRs_rewards, expectedReward. split; [|split].
+  - apply map_ext. intros b. apply bm_value_entry2.
+  - unfold qsum. induction rewards as [|b t IH]; cbn [map fold_right flat2]; [reflexivity|].
+    rewrite IH, bm_value_entry2. reflexivity.
+  - apply getValue2D_flat_lemma.
+Qed.
